@@ -157,7 +157,7 @@ def run(c) -> CaseResult:
 @st.composite
 def prim_cases(draw, tier):
     return dict(tau=draw(taus), shape=draw(st.lists(st.integers(1, 4), min_size=1, max_size=3)), seed=draw(st.integers(0, 10**6)),
-                branch=draw(st.sampled_from(["tanh", "sin", "sq", "ugelu", "W"])),
+                branch=draw(st.sampled_from(["tanh", "sin", "sq", "ugelu", "W", "const", "detached"])),
                 warm_dtype=draw(st.sampled_from([None, None, "bfloat16", "float16", "float32"])),
                 lp_dtype=draw(st.sampled_from([None, "bfloat16", "float16", "float32"])))
 
@@ -181,7 +181,10 @@ def run_prim(c) -> CaseResult:
     x0 = torch.randn(c["shape"], generator=g, dtype=torch.float64)
     up = torch.randn(c["shape"], generator=g, dtype=torch.float64)
     W = torch.randn(c["shape"][-1], c["shape"][-1], generator=g, dtype=torch.float64)
-    f = {"tanh": torch.tanh, "sin": torch.sin, "sq": lambda t: torch.tanh(t) ** 2 * 2, "ugelu": U.gelu, "W": lambda t: t @ W}[c["branch"]]
+    # ("const" / "detached": a branch whose output has no autograd path back to its input - a learned constant, a gate computed
+    # without gradient: the residual output of the split then receives no gradient at all)
+    f = {"tanh": torch.tanh, "sin": torch.sin, "sq": lambda t: torch.tanh(t) ** 2 * 2, "ugelu": U.gelu, "W": lambda t: t @ W,
+         "const": lambda t: W[0].expand(t.shape) * 1.0, "detached": lambda t: torch.tanh(t.detach()) * 0.5}[c["branch"]]
     if c.get("warm_dtype"):
         # the same tau was used before on a tensor of another dtype (nothing may be carried over between calls)
         dt = {"bfloat16": torch.bfloat16, "float16": torch.float16, "float32": torch.float32}[c["warm_dtype"]]
@@ -205,7 +208,7 @@ def run_prim(c) -> CaseResult:
     (gc,) = torch.autograd.grad(yc, xc, up)
     if not bool(((g1 - gc).abs() <= 1e-10 * max(1e-300, float(gc.abs().max()))).all()):
         res.fail("C06.input-gradient", f"single layer: x.grad differs from the derivative of the closed form (tau={tau}, branch={c['branch']}, earlier dtype={c.get('warm_dtype')})")
-    if c["branch"] != "ugelu" or True:
+    if c["branch"] != "detached":   # (finite differences see through a detach: not comparable)
         xs = x0.clone().requires_grad_()
         ok = torch.autograd.gradcheck(lambda t: U.residual_apply(f, t, tau), (xs,), eps=1e-6, atol=1e-7, rtol=1e-5, raise_exception=False)
         if ok is not True:
@@ -218,8 +221,10 @@ def run_prim(c) -> CaseResult:
         eps = {torch.bfloat16: 2.0**-8, torch.float16: 2.0**-11, torch.float32: 2.0**-19}[dt]
         res.labels.append("stream-dtype=" + c["lp_dtype"])
         xl, upl, Wl = x0.to(dt), up.to(dt), W.to(dt)
-        flp = {"tanh": torch.tanh, "sin": torch.sin, "sq": lambda t: torch.tanh(t) ** 2 * 2, "ugelu": U.gelu, "W": lambda t: t @ Wl}[c["branch"]]
-        f64 = {"tanh": torch.tanh, "sin": torch.sin, "sq": lambda t: torch.tanh(t) ** 2 * 2, "ugelu": U.gelu, "W": lambda t: t @ Wl.double()}[c["branch"]]
+        flp = {"tanh": torch.tanh, "sin": torch.sin, "sq": lambda t: torch.tanh(t) ** 2 * 2, "ugelu": U.gelu, "W": lambda t: t @ Wl,
+               "const": lambda t: Wl[0].expand(t.shape) * 1.0, "detached": lambda t: torch.tanh(t.detach()) * 0.5}[c["branch"]]
+        f64 = {"tanh": torch.tanh, "sin": torch.sin, "sq": lambda t: torch.tanh(t) ** 2 * 2, "ugelu": U.gelu, "W": lambda t: t @ Wl.double(),
+               "const": lambda t: Wl.double()[0].expand(t.shape) * 1.0, "detached": lambda t: torch.tanh(t.detach()) * 0.5}[c["branch"]]
         try:
             xq = xl.clone().requires_grad_()
             yl = U.residual_apply(flp, xq, tau)
@@ -231,7 +236,7 @@ def run_prim(c) -> CaseResult:
             fr = f64(xr)
             d_ = math.sqrt(1 + tau * tau)
             yr = (xr + tau * fr) / d_
-            (gb,) = torch.autograd.grad(fr, xr, upl.double(), retain_graph=True)
+            gb = torch.autograd.grad(fr, xr, upl.double(), retain_graph=True)[0] if fr.requires_grad else torch.zeros_like(xr)
             (gr,) = torch.autograd.grad(yr, xr, upl.double())
             ysc = (float(xr.abs().max()) + tau * float(fr.abs().max())) / d_
             # (the branch derivative is itself computed in the low precision, with absolute error ~eps where it cancels - 1 - tanh^2 near
